@@ -171,6 +171,12 @@ def check(run):
         flags = (0x80 if rbit else 0) | rng.choice([0, 0x40, 0x20, 0x10, 0x60, 0x70, 0x0f])
         nmax = rng.choice([0, 1, 3, 8, 40]) if idx % 7 == 0 else rng.choice([0, 2, 5])
         objs, canon = gen_avps(rng, rows_by_ty, nmax, rng.choice([0, 1, 2, 6]))
+        if idx % 4 == 1:     # the same AVP at the top level and inside a group
+            vsai = O.A.Avp.new(260, 0, value=[O.A.Avp.new(266, 0, value=10415), O.A.Avp.new(258, 0, value=4)])
+            top = O.A.Avp.new(258, 0, value=5)
+            for extra_a in (vsai, top) if idx % 8 == 1 else (top, vsai):
+                objs.append(extra_a)
+                canon.append((extra_a.code, extra_a.flags, extra_a.vendor_id, bytes(extra_a.payload)))
         if idx % 50 == 49:   # a large message (up to ~64 KiB)
             big = O.A.Avp.new(O.A.AvpOctetString and 1, 0, value="x" * 100) if False else None
             blob = bytes(rng.getrandbits(8) for _ in range(rng.choice([4096, 20000, 60000])))
@@ -278,6 +284,19 @@ def check(run):
                         pth.append(rng.choice(grouped) if grouped and rng.random() < 0.5 else (rng.randrange(1, 700), rng.choice([0, 10415])))
                 if pth not in paths:
                     paths.append(pth)
+            # a code that occurs INSIDE a group searched at the top level (and the other way round): the search is anchored
+            for a in tree:
+                if O.is_grouped(a[0], a[2]):
+                    try:
+                        kids = O.ref_parse_avps(a[3])
+                    except ValueError:
+                        kids = []
+                    if kids:
+                        kid = rng.choice(kids)
+                        for pth in ([(kid[0], kid[2])], [(a[0], a[2]), (a[0], a[2])], [(a[0], a[2]), (kid[0], kid[2])]):
+                            if pth not in paths:
+                                paths.append(pth)
+                        break
             if rng.random() < 0.3:
                 paths.append(list(paths[0]))     # a repeated query: must return the same answer
             q = Message.from_bytes(wire, plain_msg=True)
